@@ -1,5 +1,6 @@
 import CryoCat.Lemmas.C18
-import CryoCat.Props.C06
+import CryoCat.Lemmas.C06_Export
+import CryoCat.Lemmas.C06_Atan2
 import Mathlib.Analysis.SpecialFunctions.Trigonometric.Inverse
 import Mathlib.Analysis.SpecialFunctions.Complex.Arg
 /-! C18 — the angular distance of a table row over ℝ.
@@ -9,9 +10,16 @@ instantiated over the reals exactly as the driver instantiates it at `Float`
 (`atan2(√skewSq / 2, (trace − 1)/2)` in degrees, `realNum`), and tied to C06: for two orientations given by
 unit quaternions the value is the rotation angle `arccos((trace − 1)/2)` of the relative orientation
 `R_qᵀ·R_n`, and it is the quaternion form `2·arccos|q₁·q₂|` that `geom.angular_distance` evaluates
-(C06 `angDist_is_rotation_angle`, `trace_rel`). -/
+(C06 `angDist_is_rotation_angle`, `trace_rel`).
+
+The C06 theorems are taken from `Lemmas/C06_Export.lean` (namespace `C06.Export`), NOT from `Props/C06.lean`: the
+latter also holds C06's translator obligations over the whole of `Gen/C06.lean` (`normals_to_euler_angles`,
+`compare_rotations`, `cone_distance`, … — functions C18 never calls) and stops building when any of those
+regenerated tables changes; C18 must keep building then. The one function of `geom.py` C18 does depend on,
+`angular_distance`, is anchored by C18 itself (`Gen/C18.lean`: `angularFormula`, `angularDotClamp`, `bodyAngular`,
+`bodyCompare`; obligations `angular_formula_documented`, `body_geom_documented` of `Props/C18.lean`). -/
 namespace CryoCat.C18
-open Real CryoCat.C06
+open Real CryoCat.C06 CryoCat.C06.Export
 
 /-- radians → degrees -/
 noncomputable def deg (r : ℝ) : ℝ := r * (180 / π)
